@@ -15,6 +15,8 @@
 //!       `gen_near_infeasible`, `gen_degenerate`, modifiers `badly_scale`, `add_inf_bounds`,
 //!       cone samplers `sample_cones`, `cone_interior`, settings sampler `sample_settings`,
 //!       `stream(rng, idx, max_size)` = the mixed stream used by the C01-C03 run.
+//! * data-updating stream: `DataUpdate`, `gen_update_case`, `apply_update`, `run_update` (first solve,
+//!       update_P/q/A/b in place, re-solve; judged against the data after the update), `collect(&solver)`
 //! * `keep_rows(problem)`        the rows an independent party regards as kept (not infinite bounds)
 //! * `run(problem, watchdog_s) -> Outcome`   solve under catch_unwind with a watchdog thread;
 //!       `Outcome` has status, x, s, z, obj_val, obj_val_dual, r_prim, r_dual, iterations, the
@@ -793,6 +795,11 @@ pub fn run_here(p: &Problem) -> Outcome {
     clarabel::verif_hooks::term::reset();
     let mut solver = DefaultSolver::new(&Pm, &p.q, &Am, &p.b, &cones, p.settings.to_clarabel());
     solver.solve();
+    collect(&solver)
+}
+
+/// Reads everything the checks look at out of a solver that has just finished `solve()`.
+pub fn collect(solver: &DefaultSolver<f64>) -> Outcome {
     let (pt, pk, pinf, calls) = clarabel::verif_hooks::term::pre_unscale();
     let (dqx, dbz, dsz, dxpx) = clarabel::verif_hooks::term::residual_dots(&solver.residuals);
     let sol = &solver.solution;
@@ -813,5 +820,145 @@ pub fn run_here(p: &Problem) -> Outcome {
         dot_qx: dqx, dot_bz: dbz, dot_sz: dsz, dot_xpx: dxpx,
         presolver_keep: clarabel::verif_hooks::presolver_keep(&solver.data),
         internal_m: solver.data.m, internal_n: solver.data.n,
+    }
+}
+
+// ------------------------------------------------------------------------------------------
+// in-place data updates followed by a re-solve (update_q / update_b / update_P / update_A)
+// ------------------------------------------------------------------------------------------
+/// Full-vector updates applied to an existing solver after its first solve.  `p_vals` / `a_vals`
+/// are the new stored values in the order of `Problem::P.ents` (upper triangle) / `Problem::A.ents`.
+#[derive(Clone, Debug, Default)]
+pub struct DataUpdate {
+    pub q: Option<Vec<f64>>,
+    pub b: Option<Vec<f64>>,
+    pub p_vals: Option<Vec<f64>>,
+    pub a_vals: Option<Vec<f64>>,
+    /// iteration budget of the re-solve (None = unchanged)
+    pub max_iter: Option<u32>,
+}
+impl DataUpdate {
+    pub fn json(&self) -> Value { json!({"q": self.q, "b": self.b, "p_vals": self.p_vals, "a_vals": self.a_vals, "max_iter": self.max_iter}) }
+    pub fn from_json(v: &Value) -> DataUpdate {
+        let ov = |k: &str| if v[k].is_array() { Some(f64_vec(&v[k])) } else { None };
+        DataUpdate { q: ov("q"), b: ov("b"), p_vals: ov("p_vals"), a_vals: ov("a_vals"), max_iter: v["max_iter"].as_u64().map(|x| x as u32) }
+    }
+    pub fn kinds(&self) -> String {
+        let mut k = vec![];
+        if self.p_vals.is_some() { k.push("P"); }
+        if self.q.is_some() { k.push("q"); }
+        if self.a_vals.is_some() { k.push("A"); }
+        if self.b.is_some() { k.push("b"); }
+        k.join("+")
+    }
+}
+/// The user's data after the update: what the re-solve's result must be judged against.
+pub fn apply_update(p: &Problem, u: &DataUpdate) -> Problem {
+    let mut f = p.clone();
+    if let Some(q) = &u.q { f.q = q.clone(); }
+    if let Some(b) = &u.b { f.b = b.clone(); }
+    if let Some(v) = &u.p_vals { for (e, x) in f.P.ents.iter_mut().zip(v) { e.2 = *x; } }
+    if let Some(v) = &u.a_vals { for (e, x) in f.A.ents.iter_mut().zip(v) { e.2 = *x; } }
+    if let Some(k) = u.max_iter { f.settings.max_iter = k; }
+    f.label = format!("{} ; then update_{} and re-solve", p.label, u.kinds());
+    f
+}
+/// Base problem + update for the data-updating stream.  Objective scaled by a power of two so the
+/// equilibration's cost scaling c is far from 1; equilibration on, presolve off (updates are refused
+/// otherwise), upper-triangular P.  Mode (idx % 6): q only / b only / P+q / A+b+q / all four /
+/// vectors only on an infeasible base.
+pub fn gen_update_case(rng: &mut Rng, idx: usize, max_size: usize) -> (Problem, DataUpdate) {
+    let all: [&str; 7] = ["zero", "nn", "soc", "exp", "pow", "genpow", "psd"];
+    let sym: [&str; 3] = ["zero", "nn", "soc"];
+    let n = 1 + rng.below((max_size / 4).max(2));
+    let target_m = 1 + rng.below(2 * n + 2);
+    let kinds: &[&str] = if rng.chance(1, 2) { &sym } else { &all };
+    let cones = sample_cones(rng, target_m, kinds);
+    let mode = idx % 6;
+    let mut p = match mode { 5 => if rng.chance(1, 2) { gen_primal_infeasible(rng, n, cones) } else { gen_dual_infeasible(rng, n, cones) }, _ => gen_feasible(rng, n, cones) };
+    p.settings = sample_settings(rng);
+    p.settings.equilibrate = true;
+    p.settings.presolve = false;
+    p.p_full = false;
+    // P must be nonzero for c to move: give every problem a diagonal if P is empty
+    if p.P.ents.is_empty() && mode != 5 {
+        let mut d = vec![vec![0.0; p.n()]; p.n()];
+        for j in 0..p.n() { d[j][j] = small_int(rng, 1, 3); }
+        p.P = SpMat::from_dense(&d, p.n(), p.n());
+        // keep the planted dual feasibility: q <- q - P x0 for some x0
+        let x0: Vec<f64> = (0..p.n()).map(|_| small_int(rng, -2, 2)).collect();
+        let px = p.P.sym_mul_vec(&x0);
+        for j in 0..p.n() { p.q[j] -= px[j]; }
+    }
+    // badly scaled objective (power of two): (P, q) <- sigma (P, q)
+    let sigma = 2f64.powi(*rng.pick(&[-14, -10, -6, 6, 10, 14]));
+    for e in p.P.ents.iter_mut() { e.2 *= sigma; }
+    for v in p.q.iter_mut() { *v *= sigma; }
+    if rng.chance(1, 2) { badly_scale(rng, &mut p, 8); }
+    p.label = format!("{} + objective x2^{}", p.label, sigma.log2());
+    let (n, m) = (p.n(), p.m());
+    let mut u = DataUpdate::default();
+    let dz = concat_interior(rng, &p.cones, true);
+    let dx: Vec<f64> = (0..n).map(|_| small_int(rng, -2, 2)).collect();
+    let q_shift = |p: &Problem, a: &SpMat, scale: f64| -> Vec<f64> { let t = a.tmul_vec(&dz); (0..p.n()).map(|j| p.q[j] * scale - sigma * t[j]).collect() };
+    let b_shift = |p: &Problem, a: &SpMat| -> Vec<f64> { let t = a.mul_vec(&dx); (0..p.m()).map(|i| p.b[i] + t[i]).collect() };
+    match mode {
+        0 => { u.q = Some(q_shift(&p, &p.A, *rng.pick(&[1.0, 4.0, 0.25]))); }
+        1 => { u.b = Some(b_shift(&p, &p.A)); }
+        2 => {
+            let f = *rng.pick(&[0.5, 2.0, 3.0]);
+            u.p_vals = Some(p.P.ents.iter().map(|e| e.2 * f).collect());
+            u.q = Some(q_shift(&p, &p.A, f));
+        }
+        3 | 4 => {
+            // new A values on the same pattern (row factor 2 on some rows of elementwise cones keeps everything planted)
+            let mut a2 = p.A.clone();
+            let mut rowf = vec![1.0; m];
+            let mut i0 = 0;
+            for c in &p.cones { for k in 0..c.dim() { if c.elementwise() && rng.chance(1, 2) { rowf[i0 + k] = *rng.pick(&[2.0, 0.5, 4.0]); } } i0 += c.dim(); }
+            for e in a2.ents.iter_mut() { e.2 *= rowf[e.0]; }
+            u.a_vals = Some(a2.ents.iter().map(|e| e.2).collect());
+            let mut pb = p.clone(); for i in 0..m { pb.b[i] *= rowf[i]; }
+            u.b = Some(b_shift(&pb, &a2));
+            u.q = Some(q_shift(&p, &a2, 1.0));
+            if mode == 4 { let f = *rng.pick(&[0.5, 2.0]); u.p_vals = Some(p.P.ents.iter().map(|e| e.2 * f).collect()); }
+        }
+        _ => {
+            // infeasible base: rescale q and b (certificates survive positive rescaling of b / q)
+            if rng.chance(1, 2) { u.q = Some(p.q.iter().map(|v| v * 4.0).collect()); }
+            if u.q.is_none() || rng.chance(1, 2) { u.b = Some(p.b.iter().map(|v| v * 0.5).collect()); }
+        }
+    }
+    u.max_iter = match rng.below(3) { 0 => Some(2 + rng.below(4) as u32), 1 => Some(6 + rng.below(8) as u32), _ => None };
+    (p, u)
+}
+/// First solve of `p`, then the in-place updates of `u`, then a re-solve; returns the RE-SOLVE's
+/// outcome (`run = "update-refused"` if an update call returned an error).
+pub fn run_update(p: &Problem, u: &DataUpdate, watchdog_s: f64) -> Outcome {
+    let (p, u) = (p.clone(), u.clone());
+    let (tx, rx) = std::sync::mpsc::channel();
+    std::thread::Builder::new().stack_size(64 << 20).spawn(move || {
+        let r = guarded(|| {
+            let cones: Vec<SupportedConeT<f64>> = p.cones.iter().map(|c| c.to_clarabel()).collect();
+            clarabel::verif_hooks::term::reset();
+            let mut solver = DefaultSolver::new(&p.P.to_csc(), &p.q, &p.A.to_csc(), &p.b, &cones, p.settings.to_clarabel());
+            solver.solve();
+            let mut ok = true;
+            if let Some(v) = &u.p_vals { ok &= solver.update_P(v).is_ok(); }
+            if let Some(v) = &u.q { ok &= solver.update_q(v).is_ok(); }
+            if let Some(v) = &u.a_vals { ok &= solver.update_A(v).is_ok(); }
+            if let Some(v) = &u.b { ok &= solver.update_b(v).is_ok(); }
+            if !ok { return Outcome { run: "update-refused".into(), ..Default::default() }; }
+            if let Some(k) = u.max_iter { solver.settings.max_iter = k; }
+            clarabel::verif_hooks::term::reset();
+            solver.solve();
+            collect(&solver)
+        });
+        let _ = tx.send(r);
+    }).expect("spawn");
+    match rx.recv_timeout(std::time::Duration::from_secs_f64(watchdog_s)) {
+        Ok(Some(o)) => o,
+        Ok(None) => Outcome { run: "panic".into(), ..Default::default() },
+        Err(_) => Outcome { run: "hang".into(), ..Default::default() },
     }
 }
